@@ -1,7 +1,7 @@
 """C16 -- suite run: every case once, verdict OK iff all succeed, reporters agree.  See DESIGN.md section 3 / C16."""
 from pyvc.api import (Module, Interface, Method, Iface, Inst, Int, Nat, Bool, Str, Opt, OneOf, Const, Union,
                       ListOf, FixedList, Any_, EnumOf, Custom, new_opaque, assume_pred)
-from contracts.common import implies, iff, forall_range, exists_range
+from contracts.common import implies, iff, forall_range, exists_range, is_opaque
 
 from exactly_lib.common.exit_value import ExitValue
 from exactly_lib.execution.full_execution.result import FullExeResultStatus, FullExeResult
@@ -64,9 +64,20 @@ class PathI(Interface):
         'relative_to': Method(returns=Iface(lambda: PathI), may_raise=(ValueError,)),
         '__str__': Method(returns=Str),
         'resolve': Method(returns=Iface(lambda: ResolvedPathI), pure=True),
-        'stat': Method(returns=Any_, may_raise=(FileNotFoundError,)),
+        # os.stat: FileNotFoundError, or another OSError (a component of the path is not a directory, no
+        # permission to search a directory, too many symbolic links, ...)
+        'stat': Method(returns=Iface(lambda: StatResultI), pure=True,
+                       may_raise=(FileNotFoundError, NotADirectoryError, PermissionError)),
+        'is_file': Method(returns=Bool, pure=True),
+        'glob': Method(returns=ListOf(Iface(lambda: PathI)), pure=True),
+        '__truediv__': Method(returns=Iface(lambda: PathI), pure=True),
     }
-    attrs = {'parent': Iface(lambda: PathI), 'name': Str, 'parts': Any_}
+    attrs = {'parent': Iface(lambda: PathI), 'name': Str, 'parts': Any_, 'as_str': Str}
+    sort_key = 'as_str'      # paths are ordered like their (case-folded, on Windows) parts
+
+
+class StatResultI(Interface):
+    attrs = {'st_mode': Int}
 
 
 class ResolvedPathI(PathI):
@@ -960,6 +971,121 @@ M.loop(_CHK, 0, entry=lambda self: self._visited.copy(),
        and _new_and_distinct(paths_from_instruction, _i, _entry, self._visited)
        and _grown_by(x, paths_from_instruction, _i, _entry, self._visited),
        modifies={'self._visited': MapOf(Int, Any_), 'path': 'local', 'resolved_path': 'local'})
+
+# ------------------------------------------------------------------------------ file names of an instruction
+import stat as _stat
+
+from exactly_lib.test_suite.instruction_set import utils as suite_utils
+from exactly_lib.test_suite.instruction_set.sections import suites as suites_section, cases as cases_section
+from exactly_lib.definitions.test_suite import file_names
+
+P_UTILS = 'exactly_lib.test_suite.instruction_set.utils'
+NOT_ACCESSIBLE = suite_instruction.FileNotAccessibleSimpleError
+
+M.assume('Path.stat() returns a stat result or raises FileNotFoundError / NotADirectoryError / PermissionError '
+         '(os.stat: OSError); Path.glob lists the matches in arbitrary order; paths are totally ordered')
+
+def _stat_replay(qualified):
+    def replay(model, rf):
+        return _STAT_REPLAY % qualified
+
+    return replay
+
+
+_STAT_REPLAY = '''
+import importlib, pathlib, tempfile
+from exactly_lib.test_suite.instruction_set.instruction import FileNotAccessibleSimpleError
+module, name = %r
+resolver = getattr(importlib.import_module(module), name)
+d = pathlib.Path(tempfile.mkdtemp())
+(d / 'a-regular-file').write_text('')
+reference = d / 'a-regular-file' / 'sub.suite'      # a missing file, below something that is not a directory
+try:
+    print('returned', resolver(reference)); sys.exit(0)
+except FileNotAccessibleSimpleError as e:
+    print('FileNotAccessibleSimpleError (reported as a suite read error)'); sys.exit(0)
+except Exception as e:
+    print('escapes as', repr(e), '-- not a FileNotAccessibleSimpleError: the suite run ends with a traceback '
+          'instead of INVALID_SUITE'); sys.exit(1)
+'''
+
+M.contract(P_UTILS + ':single_regular_file_resolver', params=dict(path=Iface(PathI)), returns=Iface(PathI),
+           replay=_stat_replay(('exactly_lib.test_suite.instruction_set.utils', 'single_regular_file_resolver')),
+           ensures={'the path itself, which is a regular file': lambda path, result:
+           result is path and _stat.S_ISREG(path.stat().st_mode)},
+           raises={NOT_ACCESSIBLE: {}},       # missing, or not a regular file: reported as a suite read error
+           raises_only=())
+
+M.contract('exactly_lib.test_suite.instruction_set.sections.suites:regular_file_or_default_suite_file',
+           params=dict(path=Iface(PathI)), returns=Iface(PathI),
+           replay=_stat_replay(('exactly_lib.test_suite.instruction_set.sections.suites',
+                                'regular_file_or_default_suite_file')),
+           ensures={'the regular file, or the default suite file of the directory': lambda path, result:
+           (result is path and _stat.S_ISREG(path.stat().st_mode))
+           or (result is path / file_names.DEFAULT_SUITE_FILE and _stat.S_ISDIR(path.stat().st_mode)
+               and result.is_file())},
+           raises={NOT_ACCESSIBLE: {}},
+           raises_only=())
+
+M.contract(P_UTILS + ':is_wildcard_pattern', params=dict(instruction_text=Str), inline=True,
+           ensures={'contains * ? or [': lambda instruction_text, result:
+           result == ('*' in instruction_text or '?' in instruction_text or '[' in instruction_text)},
+           raises_only=())
+
+
+def _resolve_one(interp, self, args, kwargs):
+    (path,) = args
+    if not interp.branch(interp.reg.call_opaque(interp, self, 'accessible', [path], {})):
+        raise PyRaise(_mk_not_accessible(interp, self))
+    return interp.reg.call_opaque(interp, self, 'resolved', [path], {})
+
+
+class PathResolverI(Interface):
+    """SinglePathResolver: a function of the path -- the accessible file the path stands for (`resolved`), or
+    FileNotAccessibleSimpleError when there is none (`accessible`).  single_regular_file_resolver and
+    regular_file_or_default_suite_file are the two resolvers in use (contracts above)."""
+    methods = {
+        'accessible': Method(returns=Bool, pure=True),
+        'resolved': Method(returns=Iface(PathI), pure=True),
+        '__call__': Method(model=_resolve_one),
+    }
+
+
+def resolved(resolver, path):
+    """the file `path` stands for (for an accessible path)"""
+    return resolver.resolved(path) if is_opaque(resolver) else resolver(path)
+
+
+class InstructionEnvI(Interface):
+    target_class = suite_instruction.Environment
+    attrs = {'suite_file_dir_path': Iface(PathI)}
+
+
+M.contract(P_UTILS + ':FileNamesResolverForPlainFileName.resolve',
+           params=dict(self=Inst(suite_utils.FileNamesResolverForPlainFileName, path_resolver=Iface(PathResolverI),
+                                 file_name=Str), environment=Iface(InstructionEnvI)),
+           returns=ListOf(Iface(PathI)),
+           ensures={'the one file the name stands for, relative to the directory of the suite file':
+                    lambda self, environment, result:
+                    len(result) == 1
+                    and result[0] is resolved(self.path_resolver, environment.suite_file_dir_path / self.file_name)},
+           raises={NOT_ACCESSIBLE: {}}, raises_only=())
+
+M.contract(P_UTILS + ':FileNamesResolverForGlobPattern.resolve',
+           params=dict(self=Inst(suite_utils.FileNamesResolverForGlobPattern, path_resolver=Iface(PathResolverI),
+                                 pattern=Str), environment=Iface(InstructionEnvI)),
+           returns=ListOf(Iface(PathI)),
+           ensures={
+               'one file per match of the pattern': lambda self, environment, result:
+               len(result) == len(environment.suite_file_dir_path.glob(self.pattern)),
+               'sorted': lambda result: forall_range(0, len(result) - 1, lambda k: result[k] <= result[k + 1]),
+               'each is the file a match stands for': lambda self, environment, result:
+               forall_range(0, len(result), lambda k: exists_range(
+                   0, len(result),
+                   lambda i: result[k] is resolved(self.path_resolver,
+                                                   environment.suite_file_dir_path.glob(self.pattern)[i]))),
+           },
+           raises={NOT_ACCESSIBLE: {}}, raises_only=())
 
 # ------------------------------------------------------------------------------ the status partition
 
